@@ -2,7 +2,7 @@
 import copy, filecmp, os, shutil
 from lib import driver as D
 
-MUTANTS = ["dropVersion", "typeCaseInsensitive", "keepTrailingSlash", "fragmentKeepsHash", "versionWildcard", "canonSwapOrder"]
+MUTANTS = ["dropVersion", "typeCaseInsensitive", "leftOnlyLiteralGuard", "versionWildcard", "keepTrailingSlash", "fragmentKeepsHash", "canonSwapOrder"]
 CHUNK = 60000            # observation records per judge run (bounds TLC's heap)
 JUDGE_WORKERS = 5        # TLC re-reads the observation file once per worker (WorkerValue.demux): few workers are faster
 
